@@ -296,8 +296,11 @@ ddpbool ddp_string_equal(ddpstring *str1, ddpstring *str2) {
 	if (str1 == str2) {
 		return true;
 	}
-	if (ddp_strlen(str1) != ddp_strlen(str2)) {
+	ddpint len = ddp_strlen(str1);
+	if (len != ddp_strlen(str2)) {
 		return false; // if the length is different, it's a quick false return
 	}
-	return memcmp(str1->str, str2->str, str1->cap) == 0;
+	// only compare the characters of the texts
+	// the capacity of str1 may be bigger than the memory of str2
+	return len == 0 || memcmp(str1->str, str2->str, (size_t)len) == 0;
 }
